@@ -162,7 +162,7 @@ pub fn add_filler(p: &mut Pos, phase: i32, reserved: u8) {
 
 /// Legal position with extreme material for one side (5-9 queens + rooks/minors) against a nearly
 /// bare king: the largest evaluations the engine can produce, with and without a mate available.
-fn extreme_material_position(rng: &mut Rng) -> Option<Pos> {
+pub fn extreme_material_position(rng: &mut Rng) -> Option<Pos> {
     let mut p = Pos::empty();
     let heavy = if rng.chance(1, 2) { Color::White } else { Color::Black };
     let weak = heavy.other();
